@@ -9,9 +9,13 @@ encoder, the slave's transceiver, header parser and secondary state machine (`Se
 acknowledgements and duplicates short of the repeat timeout, deliver every ASDU to the slave application exactly
 once and in order (`master_to_slave_exactly_once_in_order`), every retransmission being the identical frame
 (`retransmissions_identical`).  When the repeat timeout is reached the link is reported failed (C15
-`priU_gives_up`).  NOT composed in Lean (partial): the direction slave → master (class 1/2 polls; the slave side
-is C15 `secU_repetitions_invisible`), the parsing of the acknowledgement on the master, several slaves on one
-line, balanced mode; those are explored on the real stacks by harness/e2e101.c.
+`priU_gives_up`).  Direction slave → master (section "polls"): the master's request (FT 1.2 fixed frame), the slave's
+parser and poll handling, the slave's response (data, "no data" as fixed frame or single character), the master's
+transceiver, parser (`parseBP`) and `HandleMessage` put together: `slave_to_master_exactly_once_fifo_per_class`
+(`polls_spec`, `serve_fifo`), `poll_retransmissions_identical`, and `single_slave_primary_run` (the model's own
+`PriU.run` with one slave is the reception used in the theorems followed by the slave's state machine).
+NOT composed in Lean (partial): several slaves on one line, balanced mode, enqueues interleaved with polls, behaviour
+at and after the repeat timeout beyond C15 `priU_gives_up`; those are explored on the real stacks by harness/e2e101.c.
 -/
 import Iec.Model.Q101
 import Iec.Lemmas.E2E101
@@ -116,7 +120,7 @@ open Iec.Link101
 
 /-- **every ASDU the master application sends reaches the slave application exactly once, first-in first-out**,
 for every list of transfers and, in each, every pattern of master runs (retransmissions), of copies reaching the
-slave (at least one; duplicates allowed) and whatever acknowledgement comes back, as long as the repeat timeout is not
+slave (at least one; duplicates allowed) and one of the slave's acknowledgements coming back, as long as the repeat timeout is not
 reached; and the two stations end synchronised, so the statement composes with whatever follows -/
 theorem master_to_slave_exactly_once_in_order (y : Sys) (ks : List Transfer) (hy : Sync y)
     (hk : ∀ k ∈ ks, k.d ≠ [] ∧ 1 + y.lm.p.addrLen + k.d.length ≤ 255 ∧ ∀ t ∈ k.waits, ¬ t > k.t0 + y.lm.p.tRepeat) :
@@ -136,8 +140,8 @@ def demoP : Params := ⟨1, 200, 1000, false, 500, by omega⟩
 def demoSys : Sys :=
   { c := { address := 5, pstate := 3 }, lm := { p := demoP, address := 0 }, s := { ll := { p := demoP, address := 5 } } }
 def demoKs : List Transfer :=
-  [{ d := [1, 2, 3], t0 := 1000, waits := [1100, 1300], t := 1010, ts := [1310], tAck := 1320, acd := false },
-   { d := [4], t0 := 2000, waits := [], t := 2010, ts := [], tAck := 2020, acd := true }]
+  [{ d := [1, 2, 3], t0 := 1000, waits := [1100, 1300], t := 1010, ts := [1310], tAck := 1320 },
+   { d := [4], t0 := 2000, waits := [], t := 2010, ts := [], tAck := 2020 }]
 example : Sync demoSys := ⟨rfl, rfl, rfl, rfl, rfl, rfl, Or.inr (Or.inl ⟨rfl, by decide⟩), ⟨by decide, by decide⟩⟩
 example : rxOf (demoSys.transfers demoKs).2.1 = [[1, 2, 3], [4]] := by decide
 /-- the master wrote the first frame twice (one retransmission), the second once -/
@@ -146,5 +150,54 @@ example : (demoSys.transfers demoKs).2.2 =
      [0x68, 3, 3, 0x68, 0x53, 5, 4, 0x5c, 0x16]] := by decide
 
 end Line
+
+/-! ### over the line: slave → master (class 1 / class 2 polls), unbalanced mode -/
+section Polls
+open Iec.Link101
+
+/-- **every ASDU the slave application queued reaches the master application exactly once, first-in first-out within
+its class**: for every sequence of polls — each with any pattern of master runs (retransmitted requests), copies of
+the request reaching the slave (at least one; duplicates allowed) and one of the slave's responses reaching the master,
+short of the repeat timeout — what the master's `UserData` callback receives is, poll by poll, what the specification
+`View.serve` takes from the slave's queues (`polls_spec`); per class that is the beginning of the class's queue, as
+long as the number of polls of that class (`serve_fifo`): nothing lost, nothing twice, nothing reordered. -/
+theorem slave_to_master_exactly_once_fifo_per_class (y : Sys) (ks : List Poll) (hy : Sync y) (hf : y.s.view.QueuesFit)
+    (hk : ∀ k ∈ ks, ∀ t ∈ k.waits, ¬ t > k.t0 + y.lm.p.tRepeat) (cls : Bool) :
+    udOf (y.polls ks).2.1 = (y.s.view.serve (y.polls ks).2.2).2.map (·.2) ∧
+    (((y.s.view.serve (y.polls ks).2.2).2.filter (fun x => x.1 == cls)).map (·.2)
+      = (if cls then y.s.c1 else y.s.c2).take ((y.polls ks).2.2.count cls)) ∧
+    Sync (y.polls ks).1 :=
+  ⟨(polls_spec ks y hy hf hk).2.2, serve_fifo cls _ _ hy.queues, (polls_spec ks y hy hf hk).1⟩
+
+/-- within a poll every request frame the master writes is the same frame (the original and each retransmission) -/
+theorem poll_retransmissions_identical (y : Sys) (k : Poll) (hy : Sync y) (hf : y.s.view.QueuesFit)
+    (hk : ∀ t ∈ k.waits, ¬ t > k.t0 + y.lm.p.tRepeat) :
+    ∀ g ∈ (y.poll k).2.2.1, g = pollFrame y.s.view (k.cls1 || y.c.req1) y.s.expectedFcb :=
+  (poll_spec y k hy hf hk).2.2.2.2.2
+
+/-- **`LinkLayerPrimaryUnbalanced_run` for a master with one slave is the reception used above followed by that
+slave's state machine** — the pieces the composed theorems are stated on are the model's own `PriU.run` -/
+theorem single_slave_primary_run (c : SlaveConn) (l : LL) (q : List Nat) (now : Nat) :
+    (single c l).run q now =
+      (single ((connRecv c l q now).1.run (connRecv c l q now).2.1 now).1 ((connRecv c l q now).1.run (connRecv c l q now).2.1 now).2.1,
+       (readNext l.p.addrLen q l.buf).1,
+       (connRecv c l q now).2.2 ++ ((connRecv c l q now).1.run (connRecv c l q now).2.1 now).2.2) :=
+  priU_run_single c l q now
+
+/-! not vacuous (tests): class 2 poll with a retransmission and a duplicate, class 1, class 2, class 2 on an empty queue -/
+def demoSys2 : Sys :=
+  { c := { address := 5, pstate := 3 }, lm := { p := demoP, address := 0 },
+    s := { ll := { p := demoP, address := 5 }, c1 := [[1]], c2 := [[7, 7], [8]] } }
+def demoPolls : List Poll :=
+  [{ cls1 := false, t0 := 1000, waits := [1100, 1300], t := 1010, ts := [1310], tR := 1320 },
+   { cls1 := true, t0 := 2000, waits := [], t := 2010, ts := [], tR := 2020 },
+   { cls1 := false, t0 := 3000, waits := [], t := 3010, ts := [], tR := 3020 },
+   { cls1 := false, t0 := 4000, waits := [], t := 4010, ts := [], tR := 4020 }]
+example : Sync demoSys2 := ⟨rfl, rfl, rfl, rfl, rfl, rfl, Or.inr (Or.inl ⟨rfl, by decide⟩), ⟨by decide, by decide⟩⟩
+example : demoSys2.s.view.QueuesFit := ⟨by decide, by decide⟩
+example : udOf (demoSys2.polls demoPolls).2.1 = [[7, 7], [1], [8]] := by decide
+example : (demoSys2.polls demoPolls).1.s.c2 = [] ∧ (demoSys2.polls demoPolls).1.s.c1 = [] := by decide
+
+end Polls
 
 end Iec.Props.C16
